@@ -1094,6 +1094,27 @@ impl BackupManager {
         let mut deleted = Vec::new();
         let min_age_seconds = policy.min_age_days * day;
 
+        // An incremental can only be restored through its whole parent chain: every
+        // ancestor of a backup that stays (kept by a bucket or still younger than the
+        // minimum age) has to stay as well.
+        for backup in &backups {
+            if now.saturating_sub(backup.timestamp) < min_age_seconds {
+                to_keep.insert(backup.id);
+            }
+        }
+        let parent_of: HashMap<Uuid, Uuid> = backups
+            .iter()
+            .filter_map(|b| b.parent_id.map(|parent_id| (b.id, parent_id)))
+            .collect();
+        let mut pending: Vec<Uuid> = to_keep.iter().copied().collect();
+        while let Some(id) = pending.pop() {
+            if let Some(parent_id) = parent_of.get(&id) {
+                if to_keep.insert(*parent_id) {
+                    pending.push(*parent_id);
+                }
+            }
+        }
+
         for backup in &backups {
             if !to_keep.contains(&backup.id) {
                 let age = now.saturating_sub(backup.timestamp);
